@@ -50,3 +50,13 @@ package syntax
 //@ func (ParseContext).compilePackage(pc; ctx, b, c)
 //@   modifies importroot
 //@   ensures[C16] c16unit: true
+
+// ---- x-c17: "the same file yields equal values whoever imports it" ---------------------------------------------
+// ImportExpr.Eval evaluates the imported expression in the EMPTY scope, whatever the importer's scope (p2) is: its
+// outcome is the meaning of the imported expression under emptyScp (evalok/evalv: the interface-level meaning of
+// rel.Expr.Eval, 97_pattern) and therefore does not depend on who imports the file. (Header identical to the C18
+// contract in verif_contracts_c18.go: the two are merged.)
+//@ func (ImportExpr).Eval(i; ctx, p2)
+//@   returns (v, err)
+//@   ensures[C16] emptyscope_ok: (err == nil) == evalok(i.importedExpr, ctx, emptyScp)
+//@   ensures[C16] emptyscope_val: err == nil ==> v == evalv(i.importedExpr, ctx, emptyScp)
